@@ -614,6 +614,11 @@ def expressions(tier: str) -> t.List[t.Any]:
             for e in (['list', u], ['tuplevar', u], ['dict', 'str', u], ['deque', u], ['tuple', u, 'int'], ['struct', ['k', u]],
                       ['optional', u], ['list', ['list', u]]):
                 add(e)
+    # alternatives whose own descriptions coincide ("tuple of length 2") but which fail at different places
+    for e in (['union', ['tuple', 'int', 'str'], ['tuple', 'str', 'int']], ['union', ['tuple', 'int', 'int'], ['tuple', 'str', 'str']],
+              ['list', ['union', ['tuple', 'int', 'str'], ['tuple', 'str', 'int']]],
+              ['union', ['tuple', 'int', ['tuple', 'int', 'str']], ['tuple', 'str', ['tuple', 'str', 'int']]]):
+        add(e)
     for tri in (['union', 'int', 'float', 'str'], ['union', 'str', 'int', 'none'], ['union', 'bool', 'int', 'float'],
                 ['union', 'lit_str', ['list', 'int'], 'none'], ['union', 'dc_struct', 'dc_both', 'str']):
         add(tri)
